@@ -64,6 +64,7 @@ type Case struct {
 	Limit       int64  `json:"limit"`         // BandwidthLimit, bytes/s, 0 = none
 	Attach      string `json:"attach"`        // before-start | after-start | after-first-write
 	Stream      bool   `json:"stream"`        // connections carry a StreamProcessor (TunnelOpen path) or are raw (StartServerTunnel path)
+	Mini        bool   `json:"mini,omitempty"` // run through the mini-server: handshakes + TunnelOpen packets, bridge owned by SessionManager
 	Ending      Ending `json:"ending"`
 }
 
@@ -276,73 +277,36 @@ func baseBound() time.Duration {
 func runCase(c Case) (*failure, *obs) {
 	o := &obs{}
 	pAB, pBA := payload(c.LenAB, c.SeedAB), payload(c.LenBA, c.SeedBA)
-	aN, aRaw := vkit.NewBufConnPair("10.1.0.1:40001", "10.0.0.1:8000")
-	bN, bRaw := vkit.NewBufConnPair("10.2.0.1:40002", "10.0.0.1:8000")
-	aS := &srvConn{BufConn: aRaw, dataWithEOF: c.DataWithEOF}
-	bS := &srvConn{BufConn: bRaw, dataWithEOF: c.DataWithEOF}
-	aS.ReadCap.Store(int32(c.SrvReadCapA))
-	bS.ReadCap.Store(int32(c.SrvReadCapB))
-	aN.ReadCap.Store(int32(c.CliReadCapA))
-	bN.ReadCap.Store(int32(c.CliReadCapB))
-	switch c.Ending.Kind {
-	case "fail-read-srvA":
-		aS.FailReadAfter.Store(int64(c.Ending.K))
-	case "fail-read-srvB":
-		bS.FailReadAfter.Store(int64(c.Ending.K))
-	case "fail-write-srvA":
-		aS.FailWriteAfter.Store(int64(c.Ending.K))
-	case "fail-write-srvB":
-		bS.FailWriteAfter.Store(int64(c.Ending.K))
+	var r *rig
+	var ferr *failure
+	if c.Mini {
+		r, ferr = newMiniRig(c)
+	} else {
+		r = newDirectRig(c)
 	}
+	if ferr != nil {
+		return ferr, o
+	}
+	aN, bN, aS, bS := r.aN, r.bN, r.aS, r.bS
 	A := &end{name: "A", conn: aN, srv: aS, send: pAB, expect: pBA, readDone: make(chan struct{}), writeDone: make(chan struct{}), firstWrite: make(chan struct{})}
 	B := &end{name: "B", conn: bN, srv: bS, send: pBA, expect: pAB, readDone: make(chan struct{}), writeDone: make(chan struct{}), firstWrite: make(chan struct{})}
-
-	ctx, cancel := context.WithCancel(context.Background())
-	var spA, spB stream.PackageStreamer
-	if c.Stream {
-		spA = stream.NewStreamProcessor(aS, aS, ctx)
-		spB = stream.NewStreamProcessor(bS, bS, ctx)
-	}
-	const tunnelID, mappingID = "tun-c02", "pm-c02"
-	src := session.CreateTunnelConnection("conn-src", aS, spA, 101, mappingID, tunnelID)
-	br := session.NewTunnelBridge(ctx, &session.TunnelBridgeConfig{
-		TunnelID: tunnelID, MappingID: mappingID,
-		SourceTunnelConn: src, SourceConn: aS, SourceStream: spA,
-		BandwidthLimit: c.Limit,
-	})
-	tgt := session.CreateTunnelConnection("conn-tgt", bS, spB, 202, mappingID, tunnelID)
-
-	startDone := make(chan struct{})
-	var startErr error
-	started := false
-	goStart := func() {
-		started = true
-		go func() { startErr = br.Start(); close(startDone) }()
-	}
 	var bg sync.WaitGroup
+	launched := false
 	defer func() {
 		// nothing of this case may outlive it
 		aN.Close()
 		bN.Close()
 		aS.Close()
 		bS.Close()
-		br.Close()
-		cancel()
-		if started {
-			waitFor(5*time.Second, func() bool { return isDone(startDone) })
+		r.cleanup()
+		if launched {
+			waitFor(5*time.Second, func() bool {
+				return isDone(A.readDone) && isDone(B.readDone) && isDone(A.writeDone) && isDone(B.writeDone)
+			})
 		}
-		waitFor(5*time.Second, func() bool {
-			return isDone(A.readDone) && isDone(B.readDone) && isDone(A.writeDone) && isDone(B.writeDone)
-		})
 		bg.Wait()
 	}()
 
-	if c.Attach == "before-start" {
-		br.SetTargetConnection(tgt)
-	}
-	goStart()
-	go A.reader()
-	go B.reader()
 	earlyA, earlyB := c.Ending.Kind == "early-close-A", c.Ending.Kind == "early-close-B"
 	upA, upB := c.LenAB, c.LenBA
 	if earlyA {
@@ -351,18 +315,60 @@ func runCase(c Case) (*failure, *obs) {
 	if earlyB {
 		upB = c.Ending.K
 	}
+	attach := c.Attach
+	if c.Mini && attach == "before-start" {
+		attach = "after-start" // the server starts the bridge when the source's TunnelOpen arrives
+	}
+	if attach == "before-start" {
+		if f := r.attach(); f != nil {
+			return f, o
+		}
+	}
+	if f := r.start(); f != nil {
+		return f, o
+	}
+	// injected transport errors count tunnel bytes only (the mini-server wrote handshake replies before)
+	baseA, baseB := aS.BytesWritten(), bS.BytesWritten()
+	switch c.Ending.Kind {
+	case "fail-read-srvA":
+		aS.FailReadAfter.Store(int64(c.Ending.K))
+	case "fail-read-srvB":
+		bS.FailReadAfter.Store(int64(c.Ending.K))
+	case "fail-write-srvA":
+		aS.FailWriteAfter.Store(baseA + int64(c.Ending.K))
+	}
+	launched = true
+	go A.reader()
 	go A.writer(c.WritesAB, upA, c.Pace, earlyA)
-	go B.writer(c.WritesBA, upB, c.Pace, earlyB)
-	switch c.Attach {
+	startB := func() {
+		baseB = bS.BytesWritten()
+		if c.Ending.Kind == "fail-write-srvB" {
+			bS.FailWriteAfter.Store(baseB + int64(c.Ending.K))
+		}
+		go B.reader()
+		go B.writer(c.WritesBA, upB, c.Pace, earlyB)
+	}
+	if !c.Mini {
+		startB() // bytes B sends before the server attaches it wait in its connection
+	}
+	var af *failure
+	switch attach {
 	case "after-start":
 		for i := 0; i < 20; i++ {
 			runtime.Gosched()
 		}
-		br.SetTargetConnection(tgt)
+		af = r.attach()
 	case "after-first-write":
 		<-A.firstWrite
-		br.SetTargetConnection(tgt)
+		af = r.attach()
 	}
+	if c.Mini {
+		startB() // B's TunnelOpenAck has to be consumed as a packet before raw bytes flow
+	}
+	if af != nil {
+		return af, o
+	}
+	startDone := r.ended
 
 	expT := c.expectedTransfer()
 	bound := baseBound() + 4*expT
@@ -404,9 +410,9 @@ func runCase(c Case) (*failure, *obs) {
 	}
 	state := func() string {
 		return fmt.Sprintf("A received %d/%d, B received %d/%d; server wrote %d to A, %d to B; server conns closed: A=%v B=%v; largest server read A=%d B=%d; A read err=%v, B read err=%v",
-			A.recv.Load(), c.LenBA, B.recv.Load(), c.LenAB, aS.BytesWritten(), bS.BytesWritten(), aS.IsClosed(), bS.IsClosed(), aS.maxRead.Load(), bS.maxRead.Load(), rdErr(A), rdErr(B))
+			A.recv.Load(), c.LenBA, B.recv.Load(), c.LenAB, aS.BytesWritten()-baseA, bS.BytesWritten()-baseB, aS.IsClosed(), bS.IsClosed(), aS.maxRead.Load(), bS.maxRead.Load(), rdErr(A), rdErr(B))
 	}
-	premature := func() bool { return isDone(A.readDone) || isDone(B.readDone) || isDone(startDone) }
+	premature := func() bool { return isDone(A.readDone) || isDone(B.readDone) || startDone() }
 	// waitPre waits for a precondition that must come true as long as nobody closed; a closure
 	// observed before it is a loss, an expired deadline without closure is only slowness.
 	waitPre := func(pre func() bool) (*failure, bool) {
@@ -481,7 +487,7 @@ func runCase(c Case) (*failure, *obs) {
 				ready.Done()
 				for !flag.Load() {
 				}
-				br.Close()
+				r.closeBridge()
 			}()
 		}
 		ready.Wait()
@@ -512,13 +518,12 @@ func runCase(c Case) (*failure, *obs) {
 		o.closeLatency = d
 	}
 	// ... and the bridge run ends (runBridgeLifecycle forgets the tunnel when Start returns)
-	if !waitFor(bound, func() bool { return isDone(startDone) }) {
+	if !waitFor(bound, startDone) {
 		fill()
-		return &failure{key: "C02/start-not-returned/" + kind, timing: true,
-			detail: fmt.Sprintf("Bridge.Start still running %v after both ends saw closure: %s", time.Since(t0).Round(time.Millisecond), state())}, o
+		return &failure{key: "C02/tunnel-not-forgotten/" + r.name + "/" + kind, timing: true,
+			detail: fmt.Sprintf("%v after both ends saw closure %s: %s", time.Since(t0).Round(time.Millisecond), r.endedWhat, state())}, o
 	}
 	fill()
-	_ = startErr
 	// received == prefix of sent, checked on every read
 	for _, e := range []*end{A, B} {
 		e.mu.Lock()
@@ -546,10 +551,11 @@ func runCase(c Case) (*failure, *obs) {
 		}
 	}
 	// byte counters equal delivered byte counts
-	if got, want := br.GetBytesSent(), bS.BytesWritten(); got != want {
+	sentCtr, recvCtr := r.counters()
+	if got, want := sentCtr, bS.BytesWritten()-baseB; got != want {
 		return &failure{key: "C02/counter/bytes-sent", detail: fmt.Sprintf("GetBytesSent=%d but %d bytes were written to the target connection (%s)", got, want, kind)}, o
 	}
-	if got, want := br.GetBytesReceived(), aS.BytesWritten(); got != want {
+	if got, want := recvCtr, aS.BytesWritten()-baseA; got != want {
 		return &failure{key: "C02/counter/bytes-received", detail: fmt.Sprintf("GetBytesReceived=%d but %d bytes were written to the source connection (%s)", got, want, kind)}, o
 	}
 	// the server let go of both connections
